@@ -863,6 +863,10 @@ theorem cleanAll_ext (hP : ∀ k, P (.removeDir k)) (ks : List Key) :
 def RejOps (P : Op → Prop) (rejs : List (Bytes × Bytes)) : Prop :=
   ∀ x ∈ rejs, ∀ k, safeKey x.1 = some k → P (.removeFile k) ∧ P (.createFile k) ∧ ∀ c, P (.write k c)
 
+/-- an operation that is logged and changes nothing -/
+theorem logged_ext {P : Op → Prop} (w : World) (o : Op) (hP : P o) : Ext P w (w.logged o) :=
+  ⟨rfl, [o], rfl, fun o' ho' => by rw [List.mem_singleton.mp ho']; exact hP, fun _ _ => rfl⟩
+
 theorem saveRejFiles_ext (rejs : List (Bytes × Bytes)) :
     ∀ w : World, RejOps P rejs → WRExt P w id (saveRejFiles w rejs) := by
   induction rejs with
@@ -872,11 +876,20 @@ theorem saveRejFiles_ext (rejs : List (Bytes × Bytes)) :
     obtain ⟨name, content⟩ := x
     have hrest : RejOps P rest := fun x hx => hP x (List.mem_cons_of_mem _ hx)
     generalize hr : saveRejFiles w ((name, content) :: rest) = r
-    unfold saveRejFiles at hr
+    rw [saveRejFiles_cons] at hr
     split at hr
     · subst hr; exact Ext.refl w
     · rename_i k hk
       obtain ⟨p1, p2, p3⟩ := hP (name, content) (List.mem_cons_self ..) k hk
+      split at hr
+      · -- bypassed (`ENOTDIR`): both operations are logged
+        have e1 : Ext P w (w.logged (.removeFile k)) := logged_ext w _ p1
+        have e2 : Ext P w ((w.logged (.removeFile k)).logged (.createFile k)) := e1.trans (logged_ext _ _ p2)
+        split at hr
+        · subst hr; exact e1
+        · split at hr
+          · subst hr; exact e2
+          · subst hr; exact WRExt.trans e2 (ih _ hrest)
       split at hr
       · rename_i w0 hop; subst hr; exact op_ext_failed hop p1
       all_goals
